@@ -57,6 +57,7 @@ def main():
     ap.add_argument("--repo", default="/repo")
     ap.add_argument("--out", required=True)
     ap.add_argument("--swap", default="rand,sync,atomic")
+    ap.add_argument("--src", default="", help="read leader/*.go from this tree instead of --repo (the overlay still targets --repo's paths); used to check a scratch worktree without touching /repo")
     ap.add_argument("--shim", default=os.path.join(os.path.dirname(os.path.abspath(__file__)), "..", "shim"))
     a = ap.parse_args()
     swaps = [s for s in a.swap.split(",") if s]
@@ -70,13 +71,21 @@ def main():
             if f.endswith(".go"):
                 replace[os.path.join(a.repo, "verifshim", pkg, f)] = os.path.join(d, f)
     ldir = os.path.join(a.repo, "leader")
+    sdir = os.path.join(a.src, "leader") if a.src else ldir
     n = 0
-    for f in sorted(os.listdir(ldir)):
+    names = set(os.listdir(ldir)) | set(os.listdir(sdir))
+    for f in sorted(names):
         if not f.endswith(".go") or f.endswith("_test.go"):
             continue
         p = os.path.join(ldir, f)
-        src = open(p, encoding="utf-8").read()
+        sp = os.path.join(sdir, f)
+        if not os.path.exists(sp):
+            replace[p] = ""  # deleted in the source tree
+            continue
+        src = open(sp, encoding="utf-8").read()
         new, changed = rewrite(src, swaps)
+        if sdir != ldir and (not os.path.exists(p) or open(p, encoding="utf-8").read() != src):
+            changed = True
         if changed:
             q = os.path.join(a.out, "leader__" + f)
             with open(q, "w", encoding="utf-8") as fh:
